@@ -53,15 +53,19 @@ struct Op {
 };
 
 inline const std::vector<const char*>& angleTable() {
-    static const std::vector<const char*> t = {"0.0", "1.5707964", "3.1415927", "6.2831855", "0.000000001", "1000.0", "0.3", "1.1", "2.7", "4.4", "5.9", "0.7853982", "2.0943951", "12.566371", "0.0001", "0.0003", "0.00005", "0.0006", "0.00001", "0.000003"};
+    static const std::vector<const char*> t = {"0.0", "1.5707964", "3.1415927", "6.2831855", "0.000000001", "1000.0", "0.3", "1.1", "2.7", "4.4", "5.9", "0.7853982", "2.0943951", "12.566371", "0.0001", "0.0003", "0.00005", "0.0006", "0.00001", "0.000003",
+                                              // computed at run time by helper functions: a float product that overflows, and inf - inf
+                                              "infAngle()", "nanAngle()"};
     return t;
 }
+inline bool angleComputed(const Op& o) { return (size_t)o.angle % angleTable().size() >= 20; }
 inline double angleValue(const Op& o) {
+    if (angleComputed(o)) return (size_t)o.angle % angleTable().size() == 20 ? (o.angleNeg ? -HUGE_VAL : HUGE_VAL) : std::nan("");
     double v = (double)strtof(angleTable()[(size_t)o.angle % angleTable().size()], nullptr);
     return o.angleNeg ? -v : v;
 }
 inline std::string angleText(const Op& o) {
-    std::string s = std::string(angleTable()[(size_t)o.angle % angleTable().size()]) + "f";
+    std::string s = std::string(angleTable()[(size_t)o.angle % angleTable().size()]) + (angleComputed(o) ? "" : "f");
     return o.angleNeg ? "-" + s : s;
 }
 
@@ -133,6 +137,8 @@ inline std::string preamble(bool trackedFields, bool staticQubit = false) {
     s += "function farrx(qubit[] r, int i) -> void { x(r[i]); }\n";
     s += "function farrm(qubit[] r) -> void { measure r; }\n";
     s += "function bitZero() -> bit { return 0b; }\nfunction bitOne() -> bit { return 1b; }\n";
+    s += "function infAngle() -> float { float b = 100000000000000000000.0f; float a = b; for (int i = 0; i < 16; i = i + 1) { a = a * b; } return a; }\n";
+    s += "function nanAngle() -> float { float a = infAngle(); return a - a; }\n";
     s += "function prepH() -> qubit { qubit t; h(t); return t; }\nfunction prepN() -> qubit { qubit t; return t; }\n";
     if (staticQubit) s += "static class SQ { public static qubit s; }\n";
     s += "class Port { public qubit q; public constructor() -> Port { } public function attach(qubit w) -> void { this.q = w; } }\n";
@@ -309,6 +315,7 @@ struct GenOptions {
     double echoMeasureProb = 0.1;      // measure nested directly in an echo argument
     double sameQubitCxProb = 0.0;      // cx whose two operands are the same qubit, passed through two function parameters
     bool staticQubit = false;
+    double nonFiniteAngleProb = 0.0;   // a rotation whose angle is computed as inf or NaN (ends the program)
     double portProb = 0.0;             // an object whose qubit field is re-pointed at local qubits by assignment
 };
 
@@ -514,6 +521,7 @@ inline Plan generate(sim::Rng& g, const GenOptions& go) {
             o.angleNeg = g.chance(0.3);
             if (bitvars > 0 && g.chance(0.15)) { o.kind = IFGATE; o.cond = (int)g.below((uint64_t)bitvars); }
             else if (g.chance(0.08)) o.loop = 2 + (int)g.below(2);
+            if (go.nonFiniteAngleProb > 0 && o.gate >= 4 && o.kind == GATE && g.chance(go.nonFiniteAngleProb)) { o.angle = 20 + (int)g.below(2); stop = true; }
             p.ops.push_back(o);
         } else if (u < 0.78 && active.size() >= 2) {
             o.kind = CX;
@@ -602,6 +610,7 @@ struct Interp {
     std::vector<int> outcomes;                 // measure outcomes / reset branches in log order (-1: no genuine choice)
     std::vector<TrackedEvent> tracked;         // tracked outcomes recorded by object deaths (scope exits are added by the caller)
     bool expectError = false;                  // the op just applied must have ended the program with a runtime error
+    bool nonFiniteAngle = false;               // ... because it is a rotation by an infinite or NaN angle
     int orientation = 0;                       // 0: branch one iff r*(w0+w1) < w1 ; 1: mirrored ; -1 unknown
     bool deferredError = false;                // a destructor of the op just applied raised an error that surfaces at the next boundary
     bool adoptObserved = false;                // a noise-weight branch was selected in the current op
@@ -708,6 +717,7 @@ struct Interp {
     // `failed` tells whether the real run ended with a runtime error inside this op.
     void apply(const Op& o, int opIndex, const Observation& ob, bool failed, std::vector<Finding>& out) {
         expectError = false;
+        nonFiniteAngle = false;
         adoptObserved = false;
         deferredError = false;
         applyInner(o, opIndex, ob, failed, out);
@@ -801,6 +811,7 @@ struct Interp {
                     if (it == bitvars.end() || !it->second) break;
                 }
                 int q = resolve(o.h);
+                if (o.gate >= 4 && !std::isfinite(angleValue(o))) { expectError = true; nonFiniteAngle = true; break; }   // a rotation by inf/NaN is refused
                 if (guard(q)) break;
                 double t = angleValue(o);
                 for (int it = 0; it < (o.kind == GATE && o.loop >= 2 ? o.loop : 1); ++it) {
